@@ -625,6 +625,42 @@ def run_job(prop, prop_mod, harness, cfg, tier, seed, known_pass=None):
     except E.Inconclusive as exc:
         rec["status"] = "inconclusive"
         rec["messages"].append("inconclusive: %s" % exc)
+        # the solver gave no verdict on a claim of the current path. Before giving up, run the real code on a few
+        # concrete inputs of that path (dyadic, generic, random): a claim that fails there is a genuine violation
+        # with a replay; if none fails the job stays inconclusive (no verdict is ever upgraded to "held").
+        try:
+            ctx = state.get("ctx")
+            cands = []
+            for odd in (False, True):
+                try:
+                    m = dyadic_refine(eng, ctx, [], odd=odd, quick=True)
+                except Exception:
+                    m = None
+                if m is not None:
+                    cands.append(model_inputs(ctx, m))
+            if ctx is not None and not cands:
+                import random
+
+                rng = random.Random(77 + seed)
+                for attempt in range(12):
+                    vals = OrderedDict()
+                    lo = 1 if attempt < 8 else -40  # mostly positive values: weights, sizes and spacings are
+                    for kname, c in ctx.inputs.items():
+                        if c is None:
+                            continue
+                        vals[kname] = float(rng.randint(lo, 40)) / 8 if c.sort() == z3.RealSort() else rng.randint(1, 5)
+                    cands.append(vals)
+            for vals in cands:
+                try:
+                    res = run_concrete(prop_mod, harness, cfg, vals, seed)
+                except BaseException:
+                    continue
+                if res["status"] == "fail":
+                    path = write_replay(prop, harness, cfg, vals, res["failed"], "concrete input tried after the solver gave no verdict on a claim")
+                    rec["violations"].append({"label": "concrete probe after an undecided claim: " + "; ".join(res["failed"][:3]), "inputs": vals, "failed_concrete": res["failed"], "replay": path, "via": "probe"})
+                    break
+        except Exception as exc2:
+            rec["messages"].append("probe after undecided claim failed: %r" % (exc2,))
     except E.HarnessError as exc:
         rec["status"] = "harness-error"
         rec["messages"].append("harness error: %s\n%s" % (exc, traceback.format_exc(limit=8)))
